@@ -67,6 +67,18 @@ func (s *VerifSST) NewIterator(asc bool) utils.Iterator {
 	return s.t.NewIterator(&utils.Options{IsAsc: asc})
 }
 
+// NewIteratorWith returns the table iterator for caller-supplied options
+// (PrefetchBlocks / PrefetchWorkers drive the iterator's prefetch workers).
+func (s *VerifSST) NewIteratorWith(opt *utils.Options) utils.Iterator {
+	return s.t.NewIterator(opt)
+}
+
+// Prefetch is table.prefetchBlockForKey, the loader the hot-key prefetch
+// (LSM.Prefetch) uses to warm the block cache for a key.
+func (s *VerifSST) Prefetch(key []byte) bool {
+	return s.t.prefetchBlockForKey(key)
+}
+
 // BloomMayContain reports whether the table has a bloom filter and what it
 // answers for a user key (column-family prefixed, without timestamp).
 func (s *VerifSST) BloomMayContain(baseKey []byte) (has bool, may bool) {
